@@ -3,6 +3,8 @@ package server
 // Program generators for the keyspace command set.
 
 import (
+	"crypto/sha1"
+	"encoding/hex"
 	"fmt"
 	"math/rand"
 	"strconv"
@@ -400,4 +402,18 @@ func (g *genCfg) program(r *rand.Rand, n int) []Cmd {
 		p = append(p, g.cmd(r))
 	}
 	return p
+}
+
+// appendScript appends a script command, one time in three in its by-hash form: SCRIPT LOAD
+// followed by EVALSHA / EVALNASHA / EVALROSHA with the script's SHA-1.
+func appendScript(p []Cmd, r *rand.Rand, c Cmd) []Cmd {
+	if r.Intn(3) != 0 || len(c.Args) < 3 {
+		return append(p, c)
+	}
+	sum := sha1.Sum([]byte(c.Args[1]))
+	c2 := c
+	c2.Args = append([]string(nil), c.Args...)
+	c2.Args[0] = c.Args[0] + "SHA"
+	c2.Args[1] = hex.EncodeToString(sum[:])
+	return append(p, Cmd{Args: []string{"SCRIPT", "LOAD", c.Args[1]}, Tag: "aux"}, c2)
 }
